@@ -6,7 +6,7 @@ ROOT=$(pwd)
 # `a+b` reverts commit a, then b (919a3ea can only be reverted after a6412d5, which rewrote the same lines)
 for h in ${@:-cfed176 f914bf1 e0d1353 a6412d5 a6412d5+919a3ea}; do
   rm -rf /tmp/work/mut_C11
-  cp -r /tmp/work/repo_snap12 /tmp/work/mut_C11
+  cp -r /tmp/work/repo_snap13 /tmp/work/mut_C11
   ok=1
   for c in ${h//+/ }; do
     (cd /tmp/work/mut_C11 && git -C /repo show $c -- snowfakery | patch -R -p1 -s) || ok=0
@@ -29,4 +29,4 @@ PY
   done
 done
 rm -rf /tmp/work/mut_C11
-VERIF_REPO=/tmp/work/repo_snap12 /venv/bin/python -c "import sys; sys.path.insert(0,'.'); from tools import py2lean; py2lean.regenerate(only=['BoundedFuncs','TemplateUtils'])"
+VERIF_REPO=/tmp/work/repo_snap13 /venv/bin/python -c "import sys; sys.path.insert(0,'.'); from tools import py2lean; py2lean.regenerate(only=['BoundedFuncs','TemplateUtils'])"
